@@ -230,6 +230,25 @@ def judge_sequence(m1, seq1, m2, seq2, cut=None):
         if got != exp:
             d = next((i for i, (a, b) in enumerate(zip(got, exp)) if a != b), min(len(got), len(exp)))
             return ('lines-depend-on-dump-formatted-earlier:' + api, {'line': got[d] if d < len(got) else None, 'fresh': exp[d] if d < len(exp) else None})
+        if cut is None:
+            # both listings REQUESTED first, then read one after the other, each to its end: each names the processes its own dump declares
+            p = PyKdebugParser()
+            p.color = False
+            for k, v in zip(SW, cfg):
+                setattr(p, k, v)
+            try:
+                l1 = getattr(p, api)(io.BytesIO(blob1), tcodes())
+                l2 = getattr(p, api)(io.BytesIO(blob2), tcodes())
+                got1 = list(l1)
+                got2 = list(l2)
+            except Exception as ex:
+                return ('formatting-raised:' + type(ex).__name__, {'api': api, 'error': repr(ex)[:200], 'requested_first': True})
+            for got, blob, which in ((got1, blob1, 'first'), (got2, blob2, 'second')):
+                exp = lines(blob, api, cfg, False)
+                if got != exp:
+                    d = next((i for i, (a, b) in enumerate(zip(got, exp)) if a != b), min(len(got), len(exp)))
+                    return ('lines-depend-on-a-listing-requested-before-this-one-was-read:' + api,
+                            {'which': which, 'line': got[d] if d < len(got) else None, 'fresh': exp[d] if d < len(exp) else None})
     return None
 
 
@@ -239,6 +258,29 @@ def callstack_dump():
             R('PERF_Event', 1, (8, 1, 0, 0), 3, 6), R('PERF_STK_UHdr', 0, (1, 1, 0, 0), 3, 7), R('PERF_STK_UData', 0, (0x1234, 0, 0, 0), 3, 8),
             R('PERF_Event', 2, (8, 0, 0, 0), 3, 9)]
     return B.v2(MAPS[2], 0, recs)
+
+
+def judge_callstack_owner():
+    """call-stack lines carry the thread id and process of the thread that EMITTED the sample, also when the sample's thread-data
+    record is about another thread (a sampling thread records other threads); an undeclared emitter is reported as unknown."""
+    def sample(tid, ts, about, word):
+        return [R('PERF_Event', 1, (9, 1, 0, 0), tid, ts), R('PERF_THD_Data', 0, (about[0], about[1], 0, 1), tid, ts + 1), R('PERF_STK_UHdr', 0, (1, 1, 0, 0), tid, ts + 2),
+                R('PERF_STK_UData', 0, (word, 0, 0, 0), tid, ts + 3), R('PERF_Event', 2, (9, 0, 0, 0), tid, ts + 4)]
+    # thread-data records repeat the thread map (no table change); thread 4 is in no map and samples thread 1
+    recs = sample(1, 10, (20, 2), 0x1010) + sample(2, 20, (10, 1), 0x2010) + sample(4, 30, (10, 1), 0x4010) + sample(2, 40, (20, 2), 0x2020)
+    blob = B.v2([(1, 10, 'A'), (2, 20, 'B')], 0, recs)
+    try:
+        got = lines(blob, 'formatted_callstacks', [False, False, False, True, True, False], False)
+    except Exception as ex:
+        return [('formatting-raised:' + type(ex).__name__, {'error': repr(ex)[:200], 'api': 'formatted_callstacks'})]
+    heads = [ln.split('\n')[0] for ln in got]
+    want = [(1, 'A(10)'), (2, 'B(20)'), (4, 'Error: tid 4'), (2, 'B(20)')]
+    if len(heads) != len(want):
+        return [('callstack-line-count', {'got': len(heads), 'expected': len(want)})]
+    for h, (tid, proc) in zip(heads, want):
+        if not h.startswith(f'{tid:>11} {proc}'):
+            return [('callstack-line-not-attributed-to-the-emitting-thread', {'line': h, 'expected_tid': tid, 'expected_process': proc})]
+    return []
 
 
 def log_dump():
@@ -465,6 +507,9 @@ class C14(Check):
             acc.case(nontrivial=True, transitions=2)
             if bad:
                 acc.violation(bad[0], {'kind': 'logs'}, bad[1])
+            for sig, detail in judge_callstack_owner():
+                acc.violation(sig, {'kind': 'callstack-owner'}, detail)
+            acc.case(nontrivial=True, transitions=20, state=h64('callstack-owner'))
             for sig, detail in judge_colour_bodies():
                 acc.violation(sig, {'kind': 'colour-bodies'}, detail)
             acc.case(nontrivial=True, transitions=16, state=h64('colour-bodies'))
@@ -497,6 +542,8 @@ class C14(Check):
                 bad = (bad[0] + ':after-a-failed-dump', bad[1])
         elif k == 'callstacks':
             bad, _ = judge_compose(callstack_dump(), 'formatted_callstacks')
+        elif k == 'callstack-owner':
+            return judge_callstack_owner()
         elif k == 'colour-bodies':
             return judge_colour_bodies()
         elif k == 'independence':
